@@ -73,8 +73,28 @@ class T1Client(BaseClient):
             return False   # a pure restoring helper (only self-slices / saved values): assumed to complete
         return True
 
+    @staticmethod
+    def _sources(s):
+        """{loop variable: text of the iterable it is drawn from} - `for obj, m0 in zip(objs, lens)` -> {obj: objs, m0: lens}"""
+        if not isinstance(s, ast.For):
+            return {}
+        it, tg = s.iter, s.target
+        if isinstance(it, ast.Call) and isinstance(it.func, ast.Name) and it.func.id == "enumerate" and it.args and isinstance(tg, ast.Tuple) and len(tg.elts) == 2:
+            it, tg = it.args[0], tg.elts[1]
+        if isinstance(it, ast.Call) and isinstance(it.func, ast.Name) and it.func.id == "zip" and isinstance(tg, ast.Tuple) and len(tg.elts) == len(it.args):
+            return {ast.unparse(t): ast.unparse(a) for t, a in zip(tg.elts, it.args)}
+        return {ast.unparse(tg): ast.unparse(it)}
+
+    def _loop_key(self, recv):
+        """the collection the receiver of a store is drawn from (innermost enclosing loop that binds it)"""
+        base = recv.split(".")[0].split("[")[0]
+        for src in reversed(self.loops):
+            if src and base in src:
+                return src[base]
+        return None
+
     def enter_loop(self, s):
-        self.loops.append(ast.unparse(s.iter) if isinstance(s, ast.For) else None)
+        self.loops.append(self._sources(s))
 
     def leave_loop(self, s):
         self.loops.pop()
@@ -82,8 +102,8 @@ class T1Client(BaseClient):
     def exit_loop(self, s, S_before, S_body, S_fix):
         # loop correlation: flags raised inside a loop over iterable I are discharged by a later loop over the
         # same iterable text whose body restores them - also on its zero-iteration path (I is empty in both).
-        it = ast.unparse(s.iter) if isinstance(s, ast.For) else None
-        zero = frozenset(f for f in S_before if not (f[2] is not None and f[2] == it and self._restores_in(s, f[1])))
+        srcs = set(self._sources(s).values())
+        zero = frozenset(f for f in S_before if not (f[2] is not None and f[2] in srcs and self._restores_in(s, f[1])))
         return zero | (S_body if S_body is not None else frozenset())
 
     def _restores_in(self, loop, attr):
@@ -99,7 +119,8 @@ class T1Client(BaseClient):
             h = self.helper_calls.get(id(c))
             if h:
                 for a in h["overwrites"] & self.swap_attrs:
-                    S = S | {("tmp", a, self.loops[-1] if self.loops else None)}
+                    hk = next((v for src in reversed(self.loops) if src for v in src.values()), None)
+                    S = S | {("tmp", a, hk)}
                 for a in h["restores"] & self.swap_attrs:
                     S = frozenset(f for f in S if f[1] != a)
         if isinstance(s, ast.Assign):
@@ -109,7 +130,7 @@ class T1Client(BaseClient):
                     if id(s) in self.restores:
                         S = frozenset(f for f in S if f[1] != ra[1])
                     else:
-                        S = S | {("tmp", ra[1], self.loops[-1] if self.loops else None)}
+                        S = S | {("tmp", ra[1], self._loop_key(ra[0]))}
         return S
 
 
